@@ -23,6 +23,7 @@ func init() {
 	reg("C07", "C07.R5", "E7", "writer tokens = reader tokens (prefixes, indent, separator length)", 1, ruleTokenAgreement)
 	reg("C07", "C07.R6", "E6", "raw file/stream names spliced into the line format", 1, ruleRawNames)
 	reg("C07", "C07.R7", "E3", "committed offsets are stored under the job's lock (same rule as C03.R2)", 15, ruleJobLockTable)
+	reg("C07", "C07.R8", "E2", "every save formats into an emptied buffer: nothing of an earlier (failed) save is written again", 1, ruleSnapshotBufferFresh)
 }
 
 func isOSFileMethod(ci ssa.CallInstruction, names ...string) (ssa.Value, bool) {
@@ -748,4 +749,58 @@ func (c *Ctx) durableBoolHelper(h *ssa.Function) (bool, string) {
 		}
 	}
 	return true, ""
+}
+
+// ruleSnapshotBufferFresh: the saver formats the snapshot into a buffer it keeps between saves. Every
+// save must start from an empty buffer: the reset (`buf = buf[:0]`) dominates every append of the
+// formatting, so that whatever an earlier save — in particular a FAILED one that returned early — left
+// in the buffer can never be written in front of the next snapshot.
+func ruleSnapshotBufferFresh(c *Ctx, r *Rule) {
+	saver := c.Method("plugin/input/file", "offsetDB", "save")
+	if saver == nil {
+		r.Unresolved("offsetDB.save")
+		return
+	}
+	var resets, appends []ssa.Instruction
+	for _, a := range c.fieldAccesses(fileInPkg, "offsetDB", "buf") {
+		if !a.write || !nestedIn(a.fn, saver) {
+			continue
+		}
+		switch v := stripConv(a.val).(type) {
+		case *ssa.Slice:
+			if k, isK := constInt(v.High); v.High != nil && isK && k == 0 && v.Low == nil {
+				resets = append(resets, a.in)
+				continue
+			}
+			appends = append(appends, a.in)
+		default:
+			appends = append(appends, a.in)
+		}
+	}
+	r.Inst(1)
+	name := c.fnName(saver)
+	r.Ob(len(appends) >= 3, name+"|buffer-appends", saver.Pos(), fmt.Sprintf("the saver formats the snapshot into offsetDB.buf (%d stores)", len(appends)))
+	bad := token.NoPos
+	for _, ap := range appends {
+		dom := false
+		for _, rs := range resets {
+			if rs.Parent() == ap.Parent() && instrDominates(rs, ap) {
+				dom = true
+			}
+			if rs.Parent() != ap.Parent() {
+				// one of the two sits in a literal of the saver: compare their sites in the saver
+				if a, b := c.siteIn(rs, saver), c.siteIn(ap, saver); a != nil && b != nil && instrDominates(a, b) {
+					dom = true
+				}
+			}
+		}
+		if !dom && bad == token.NoPos {
+			bad = ap.Pos()
+		}
+	}
+	pos := saver.Pos()
+	if bad != token.NoPos {
+		pos = bad
+	}
+	r.Ob(bad == token.NoPos && len(resets) >= 1, name+"|buffer-emptied-before-formatting", pos, "the snapshot buffer is emptied before the first byte of a snapshot is appended (a reset placed after the write leaves the text of a failed save in front of the next snapshot: every source appears twice and the file no longer loads)")
 }
